@@ -169,10 +169,24 @@ Qed.
 Definition unfound (found : list (fkey * (frag * list rid))) (f : frag) : bool :=
   match aget key_eqb found (key_of f) with Some _ => false | None => true end.
 
-Lemma missing_rows_frags_gen found g : forall rows prev i la,
-  frags_of (missing_rows found g rows prev i la) = filter (unfound found) (frags_of rows).
+Lemma frags_of_gap_rows : forall l, forallb is_gap_row l = true -> frags_of l = [].
 Proof.
-  induction rows as [|r rows IH]; intros prev i la; [reflexivity|].
+  induction l as [|[f|gp] l IH]; cbn [forallb is_gap_row andb]; intro H; [reflexivity|discriminate|].
+  change (frags_of (RG gp :: l)) with (frags_of l). apply IH, H.
+Qed.
+
+(* in both modes the separator is made of gap rows only *)
+Lemma frags_of_missing_sep c g between : frags_of (missing_sep c g between) = [].
+Proof.
+  unfold missing_sep. destruct (fix_gap_run c && forallb is_gap_row between) eqn:E.
+  - apply andb_prop in E. apply frags_of_gap_rows, E.
+  - destruct (last between _) as [?|?]; reflexivity.
+Qed.
+
+Lemma missing_rows_frags_gen c found g : forall rows between i la,
+  frags_of (missing_rows c found g rows between i la) = filter (unfound found) (frags_of rows).
+Proof.
+  induction rows as [|r rows IH]; intros between i la; [reflexivity|].
   cbn [missing_rows]. destruct r as [f|gp].
   - change (frags_of (RF f :: rows)) with (f :: frags_of rows). cbn [filter]. unfold unfound at 1.
     destruct (aget key_eqb found (key_of f)) as [v|].
@@ -181,39 +195,39 @@ Proof.
       change (frags_of (RF f :: ?t)) with (f :: frags_of t). rewrite IH.
       match goal with |- frags_of ?sep ++ _ = _ => assert (E : frags_of sep = []) end.
       { destruct la as [l|]; [|reflexivity]. destruct (negb (l =? i - 1)); [|reflexivity].
-        destruct prev as [[?|?]|]; reflexivity. }
+        apply frags_of_missing_sep. }
       rewrite E. reflexivity.
   - change (frags_of (RG gp :: rows)) with (frags_of rows). apply IH.
 Qed.
 
-Theorem missing_rows_frags : forall found g rows,
-  frags_of (missing_rows found g rows None 0 None)
+Theorem missing_rows_frags : forall c found g rows,
+  frags_of (missing_rows c found g rows [] 0 None)
   = filter (fun f => match aget key_eqb found (key_of f) with Some _ => false | None => true end) (frags_of rows).
 Proof. intros. apply missing_rows_frags_gen. Qed.
 
 Definition left_frags (l : list scaffold) : list frag := flat_map (fun sc => frags_of (sc_rows sc)) l.
 
-Lemma add_missing_frags_gen g found : forall input nm acc nm' left,
-  foldM (add_missing_one g found) input (nm, acc) = Ok (nm', left) ->
+Lemma add_missing_frags_gen c g found : forall input nm acc nm' left,
+  foldM (add_missing_one c g found) input (nm, acc) = Ok (nm', left) ->
   left_frags left = left_frags acc ++ filter (unfound found) (in_frags input).
 Proof.
   induction input as [|[name rows] input IH]; intros nm acc nm' left H; cbn [foldM] in H.
   - injection H as _ <-. cbn. rewrite app_nil_r. reflexivity.
   - unfold in_frags. cbn [flat_map snd]. rewrite filter_app. fold (in_frags input).
-    rewrite <- (missing_rows_frags_gen found g rows None 0 None).
+    rewrite <- (missing_rows_frags_gen c found g rows [] 0 None).
     unfold add_missing_one at 1 in H.
-    destruct (missing_rows found g rows None 0 None) as [|r0 new_rows] eqn:M.
+    destruct (missing_rows c found g rows [] 0 None) as [|r0 new_rows] eqn:M.
     + cbn [bind] in H. apply IH in H. rewrite H. reflexivity.
     + destruct (make_scaffold_name nm name (r0 :: new_rows) []) as [nm1|] eqn:N; cbn [bind] in H; [|discriminate].
       apply IH in H. rewrite H. unfold left_frags at 1. rewrite flat_map_app'. cbn [flat_map sc_rows].
       rewrite app_nil_r, app_assoc. reflexivity.
 Qed.
 
-Theorem add_missing_frags : forall g found input nm nm' left,
-  foldM (add_missing_one g found) input (nm, []) = Ok (nm', left) ->
+Theorem add_missing_frags : forall c g found input nm nm' left,
+  foldM (add_missing_one c g found) input (nm, []) = Ok (nm', left) ->
   flat_map (fun sc => frags_of (sc_rows sc)) left
   = filter (fun f => match aget key_eqb found (key_of f) with Some _ => false | None => true end) (in_frags input).
-Proof. intros g found input nm nm' left H. apply add_missing_frags_gen in H. exact H. Qed.
+Proof. intros c g found input nm nm' left H. apply add_missing_frags_gen in H. exact H. Qed.
 
 (* ============================================== 3. fusing, naming, sorting *)
 Lemma left_frags_app a b : left_frags (a ++ b) = left_frags a ++ left_frags b.
